@@ -239,7 +239,6 @@ EXEC_GROUPS = [
     ["do 80 i = 1, 3", "80 allocate(w(i))"],
     ["do 81 i = 1, 3", "81 open(10, file='x.dat')"],
     ["do 82 i = 1, 3", "do 82 j = 1, 3", "82 mat(i, j) = 0.0"],
-    ["do 83 i = 1, 3", "83 stop"],
     ["do 84 i = 1, 3", "84 call s()"],
     ["do 85 i = 1, 3", "85 write(*, *) i"],
     ["where (a > 0.0)", "a = 1.0", "elsewhere (a < -1.0)", "a = -1.0", "elsewhere", "a = 0.0",
